@@ -164,6 +164,11 @@ def gen_stream(r, backend, ndocs=None, tail_blocks=None):
         else:
             if prev_end and r.random() < 0.3:
                 head = r.choice(['%YAML 1.1\n---\n', '%TAG !e! tag:example.com,2000:\n---\n'])
+            elif r.random() < 0.1 and len(parts) >= 2 and not parts[-2].get('ended') and parts[-2]['text'].rstrip('\n').endswith((']', '}', '"', "'")):
+                # a directive right after a document that a flow / quoted node has ended (no '...'), and comment lines
+                # between the directive and the '---' it belongs to
+                head = r.choice(['%YAML 1.1\n', '%TAG !e! tag:example.com,2000:\n']) + gen_gap(r, big=True) + \
+                    ('# ' + 'c' * 70 + '\n') * r.choice([0, 5, 150, 300]) + '---\n'
             else:
                 head = r.choice(['---\n', '---\n', '--- \n', '---   # doc\n'])
         single_plain = body[:1].isalnum() and body.count('\n') == 1 and ': ' not in body and ' #' not in body
@@ -194,6 +199,11 @@ MALFORMED = {
     'parser-duplicate-yaml-directive': '...\n%YAML 1.1\n%YAML 1.1\n---\nx\n',
     'parser-duplicate-tag-handle': '...\n%TAG !a! tag:a.example,2000:\n%TAG !a! tag:b.example,2000:\n---\nx\n',
     'parser-directive-without-start': '...\n%YAML 1.1\nx: y\n',
+    # the same directive-level errors directly after a document that was NOT closed with '...': the directive token is
+    # what terminates the document before it, which must still be delivered first
+    'parser-incompatible-version-no-end': '%YAML 2.0\n---\nx\n',
+    'parser-duplicate-yaml-directive-no-end': '%YAML 1.1\n%YAML 1.1\n---\nx\n',
+    'parser-duplicate-tag-handle-no-end': '%TAG !a! tag:a.example,2000:\n%TAG !a! tag:b.example,2000:\n---\nx\n',
     'composer-undefined-alias': '---\n- a\n- *nope\n',
     'composer-duplicate-anchor': '---\n- &d 1\n- &d 2\n',
     'constructor-unknown-tag': '---\n- !unknown/tag x\n',
@@ -258,6 +268,9 @@ def generate(seed, tier):
         if bad == 'reader-bad-utf8' and form != 'utf8':
             form = case['form'] = 'utf8'
         case['malformed'] = bad
+        if bad.endswith('-no-end'):
+            # the document before the directive must not swallow the '%' line: end it with a flow / quoted node
+            parts.append({'kind': 'doc', 'text': '--- ' + r.choice(['[a, b]', '{a: b}', '"quoted"', "'single'"]) + '\n'})
         if bad.startswith('parser-junk'):
             # the document before the junk must end in a token that terminates it for good
             parts.append({'kind': 'doc', 'text': '--- ' + r.choice(['[a, b]', '{a: b}', '"quoted"', "'single'", '|\n  literal\n  text', '&x [1]'])
@@ -272,7 +285,7 @@ def generate(seed, tier):
             else r.choice(['CSafeLoader', 'CFullLoader', 'CLoader', 'CBaseLoader', 'CUnsafeLoader'])
         if r.random() < 0.35:
             # the iteration may also end with a YAMLError: a malformed document somewhere in the stream
-            kinds = [k for k in sorted(MALFORMED) if not k.startswith(('reader', 'parser-junk'))]
+            kinds = [k for k in sorted(MALFORMED) if not k.startswith(('reader', 'parser-junk')) and not k.endswith('-no-end')]
             bad = r.choice(kinds + [k for k in kinds if k.startswith('constructor')] * 2)
             case['malformed'] = bad
             parts.insert(r.randrange(len(parts) + 1), {'kind': 'bad', 'text': MALFORMED[bad]})
@@ -284,6 +297,8 @@ def generate(seed, tier):
         case['abandon'] = {'after': after, 'how': r.choice(['close', 'throw', 'del', 'del', 'exhaust', 'stream_error', 'stream_error'])}
         if case['abandon']['how'] == 'stream_error':
             case['abandon']['read'] = r.choice([0, 1, 2, 2, 3, 3, 4, 5, 8, 13, 30])
+        elif r.random() < 0.2:
+            case['abandon']['inmemory'] = True      # the input is a str / bytes object, not a stream: the loader must go all the same
     case['parts'] = parts
     n = sum(len(p['text']) for p in parts) * (2 if form == 'utf16le' else 1)
     x = rs.random()
@@ -548,6 +563,9 @@ def execute(case):
                 fault = (ab['read'], lambda: OSError(5, 'simulated I/O error'))
             stream = SimReader(data, case['sizes'], case['then'], log=log, fault=fault)
             ref = weakref.ref(stream)
+            if ab.get('inmemory'):
+                stream = data
+                ref = lambda: None
             loaders = []
 
             class Probe(L):
